@@ -89,7 +89,13 @@ theorem skip_pure (env : Env) (hrules : ∀ i, i < env.rules.size → skipOK env
           · exact Same.trans (Same.trans h1 this) ⟨rfl, rfl, rfl, rfl, rfl, rfl, rfl, rfl⟩
     · intro e hc s hs
       cases e with
-      | seq i es => simp only [skipOK] at hc; simp only [parseNode]; exact ihS es s.pos hc s hs
+      | seq i es =>
+        simp only [skipOK] at hc
+        simp only [parseNode]
+        have := ihS es s.pos hc s hs
+        split
+        · exact Same.trans this ⟨rfl, rfl, rfl, rfl, rfl, rfl, rfl, rfl⟩
+        · exact this
       | choice i es => simp only [skipOK] at hc; simp only [parseNode]; exact ihC es hc s hs
       | action i a e' =>
         simp only [skipOK] at hc
